@@ -57,21 +57,35 @@ def oracle(case, impl):
             if ev.get('start') is not None and ev['start'] + ev['ts'] <= T:
                 for v, d in ev['u']:
                     expect[v] = expect.get(v, 0) + d
+        # steps are processes with timestep 0: what a step returned in a phase at or before T counts
+        for ev in log:
+            if ev['e'] == 'stepInvoke' and ev['t'] <= T:
+                for v, d in ev['u']:
+                    expect[v] = expect.get(v, 0) + d
         got = dict(row['row'])
         if got != expect:
             fails.append(f'sum: row at {T} is {sorted(got.items())}, expected {sorted(expect.items())}')
             break
-    # a quiet poll (condition false) contributes nothing: no invocation at that poll
+    # a quiet poll (condition false) contributes nothing: a step is invoked only right after its update
+    # condition was consulted and held (for processes the trace correspondence compares askCond/invoke)
+    held = set()
+    for ev in log:
+        if ev['e'] == 'stepCond' and ev['ans']:
+            held.add((tuple(ev['p']), ev['k'], ev['t']))
+        elif ev['e'] == 'stepInvoke' and (tuple(ev['p']), ev['k'], ev['t']) not in held:
+            fails.append(f'quiet: step {ev["p"]} invoked at {ev["t"]} although its update condition did not hold')
+            break
     return fails
 
 
 install(globals(), 'C01', view, oracle,
-        gen_opts=dict(steps_ok=False, emit_variants=False),
+        gen_opts=dict(steps_ok=True, max_steps=2, emit_variants=False),
         budget={'quick': 250, 'thorough': 6000},
         rule='scenario = 1–4 probe processes (timestep scripted by call count or state-dependent; update '
              'condition constant/scripted/state-dependent; updates = private token + shared accumulating variables '
              'depending on timestep, invocation index and observed state), 1–4 run_for/update calls with arbitrary '
-             'intervals, tick unit ∈ {1, 0.25, 0.5, 0.1@p=1, 0.01@p=2, 2}; no steps (process updates only). '
+             'intervals, tick unit ∈ {1, 0.25, 0.5, 0.1@p=1, 0.01@p=2, 2}, started at any initial_global_time; 0–2 steps '
+             '(with update conditions) whose updates count in the sums. '
              'Non-trivial: ≥ 2 processes and ≥ 12 trace events. Distinct by canonical JSON.',
         level_text='Lean 4 theorems over the scheduler model (the run_for loop with arbitrary process oracles): '
                    'loop-head invariant; in every reachable log the invocations and applications of each process '
@@ -134,3 +148,10 @@ def oracle(case, impl):
                 fails.append('parallel: with the same processes run in parallel the emitted values differ '
                              f'(serial {str(rows)[:200]} / parallel {str(par["rows"])[:200]})')
     return fails[:6]
+
+
+# container-valued variables: what is applied at the end of an interval is the update as it was returned
+# (computed from the state the process was started on), whatever else was applied to that state meanwhile
+from harness import valuesnap as _vs               # noqa: E402
+from harness.mixins import add_family as _add_family   # noqa: E402
+_add_family(globals(), _vs, 'valuesnap', _vs.oracle, share=0.08)
